@@ -50,7 +50,7 @@ WITNESSES = {
 
 
 def run(tier: str, seed: int) -> int:
-    chk = Check(PROP, tier, seed, "proof")
+    chk = Check(PROP, tier, seed, "other")
     chk.assumptions = ["PV.Src (reference semantics of the dialect) and PV.IC10 (machine) are hand-written trusted specifications; NaN and non-finite values are outside the compared domain",
                        "proved: branch-selection tables (all operators, all values of a linear order). NOT proved for the real generator: whole-program trace equality — explored by the executable oracle on generated programs",
                        "generated programs avoid the trigger patterns of the known findings (progen.Profile); witnesses of those findings are run separately"]
@@ -146,7 +146,8 @@ def run(tier: str, seed: int) -> int:
     chk.coverage["programs"] = chk.evaluations
     chk.coverage["rule"] = ("type-directed generator over the PV.Src grammar (progen.py), profiles core / funcs, each program compiled by the real transpiler under a random vector of the "
                             "behaviour-neutral options and run against several pseudo-random device environments; distinct = distinct source text; every counted program compiled and was compared")
-    chk.coverage["explanation"] = "table theorems proved; whole-program equivalence explored by the reference-semantics oracle on real outputs (differential testing, not a proof)"
+    chk.coverage["explanation"] = ("table theorems and compile-correctness of the model generator for the core sub-language proved in Lean; the real pre-allocation code of in-core programs compared with the model generator's "
+                                   "instruction for instruction; whole-program equivalence beyond the core explored by the reference-semantics oracle on real outputs (differential testing, not a proof)")
     if failures:
         f = min(failures, key=lambda x: len(x.get("src", "")))
         chk.violation(dict(f, broken=chk.broken, n_failures=len(failures)))
